@@ -41,7 +41,14 @@ type Ctx struct {
 func (c *Ctx) Emit(format string, a ...any) {
 	fmt.Fprintf(c.w, format, a...)
 	c.w.WriteByte('\n')
+	c.w.Flush() // a process exit inside the code under test must not lose the history so far
 	c.Lines++
+}
+
+// Pending records the operation about to run, so that a process exit (log.Fatal, os.Exit,
+// fatal runtime error) inside the code under test leaves a reproducer behind.
+func (c *Ctx) Pending(in string) {
+	os.WriteFile(filepath.Join(c.Dir, "pending.txt"), []byte(in+"\n"), 0o644)
 }
 
 func (c *Ctx) Count(key string) { c.Stats[key]++ }
@@ -110,6 +117,7 @@ func main() {
 	ctx := &Ctx{R: gen.New(*seed), N: *n, Tier: *tier, Dir: *out, w: bufio.NewWriterSize(fh, 1<<20),
 		Stats: map[string]int{}, Replay: *replay}
 	f(ctx)
+	os.Remove(filepath.Join(*out, "pending.txt"))
 	ctx.w.Flush()
 	fh.Close()
 	st, _ := json.MarshalIndent(map[string]any{"lines": ctx.Lines, "dist": ctx.Stats}, "", " ")
